@@ -103,6 +103,21 @@ def explore_history(ctx, binary, hist, hid, traces, stats):
             if r2.get("ok"):      # and once more: the restart itself must leave a loadable directory
                 r3, _ = run_helper(ctx, binary, ["start", crashroot])
                 ev += completed_events(r3, "")
+            if r2.get("ok") and variant == "full" and prefix and prefix[0].get("event") == "Completed":
+                # ... also when the operator's next start names the (same) identity explicitly - that start writes a
+                # SHORTER state file than a plain one, over whatever the kill left behind - and a plain start follows
+                crashfs.materialize(state, crashroot)
+                node, priv, seed = prefix[0]["id"].split("|")      # the identity this directory persisted in its first start
+                eargs, eov = ["node-id=" + node, "private-key=" + priv, "drbg-seed=" + seed, "iat-mode=1"], "1"
+                r4, _ = run_helper(ctx, binary, ["start", crashroot] + eargs)
+                ev2 = list(prefix) + [{"event": "Killed", "n": i, "k": k, "variant": variant, "ov": ov, "after": crashfs.describe(ops[k - 1])}]
+                ev2 += completed_events(r4, eov)
+                if r4.get("ok"):
+                    r5, _ = run_helper(ctx, binary, ["start", crashroot])
+                    ev2 += completed_events(r5, "")
+                traces.append({"id": "%s-s%d-k%d-%s-x" % (hid, i, k, variant),
+                               "scenario": {"history": hist, "kill_in_start": i, "after_call": k, "variant": variant, "then": ["explicit(same identity)+iat1", "plain"]},
+                               "events": ev2})
             traces.append({"id": "%s-s%d-k%d-%s" % (hid, i, k, variant),
                            "scenario": {"history": hist, "kill_in_start": i, "after_call": k, "variant": variant},
                            "events": ev})
